@@ -81,10 +81,16 @@ type lazyConn struct {
 	handler func(req []byte) []byte
 	// ReadErr, if set, is returned once the reply is exhausted instead of EOF.
 	ReadErr error
+	// Stall, if set, makes every Read wait until the channel is closed (a peer that accepts and stays silent).
+	Stall chan struct{}
 }
 
 func (c *lazyConn) Write(b []byte) (int, error) { c.req = append(c.req, b...); return len(b), nil }
 func (c *lazyConn) Read(b []byte) (int, error) {
+	if c.Stall != nil {
+		<-c.Stall
+		return 0, fmt.Errorf("connection reset by peer")
+	}
 	if !c.done {
 		c.done = true
 		c.reply = c.handler(c.req)
